@@ -13,9 +13,12 @@ Definition c15_prefix (s : str) : outcome str := prefix_b s.
 Definition c15_apply (r : rule) (s : str) : outcome str := naming_b r s.
 Definition c15_event_fn (s : str) : outcome str := event_fn_b s.
 Definition c15_variant (r : rule) (s : str) : outcome str := variant_b r s.
+Definition c15_emit_select (emit_to : bool) (n : nat) : outcome (option (nat * nat)) := emit_select emit_to (seq 0 n).
+Definition c15_attr_is_command (leading : bool) (segs : list str) : outcome bool := attr_is_command_b leading segs.
+Definition c15_tauri_param (segs : list str) : outcome bool := tauri_param_plain_b segs.
 (* the property's predicate on an observed outcome: the function returned *)
-Definition c15_no_panic {A} (o : outcome A) : bool := match o with Ok _ => true | _ => false end.
+Definition c15_no_panic {A} (o : outcome A) : bool := returned o.
 
 Extraction Language OCaml.
 Extraction "tt_c15.ml" c15_utf8 c15_validator c15_serde c15_rule_of_str c15_parse c15_names c15_prefix
-  c15_apply c15_event_fn c15_variant c15_no_panic.
+  c15_apply c15_event_fn c15_variant c15_emit_select c15_attr_is_command c15_tauri_param c15_no_panic.
